@@ -7,6 +7,7 @@ import (
 	"encoding/json"
 	"fmt"
 	"io"
+	"log/slog"
 	"os"
 	"path/filepath"
 	"strings"
@@ -15,11 +16,13 @@ import (
 	"time"
 
 	"github.com/opencontainers/go-digest"
+	"github.com/sirupsen/logrus"
 	"pgregory.net/rapid"
 
 	"github.com/regclient/regclient"
 	"github.com/regclient/regclient/config"
 	"github.com/regclient/regclient/scheme/reg"
+	"github.com/regclient/regclient/types"
 	"github.com/regclient/regclient/types/descriptor"
 	"github.com/regclient/regclient/types/manifest"
 	"github.com/regclient/regclient/types/ref"
@@ -83,7 +86,23 @@ func dockerEntry(a *account, form string) map[string]string {
 
 // buildClient configures a client exactly as the case says.
 func buildClient(c *Case, w *world, logw io.Writer) (*regclient.RegClient, func(), error) {
-	conf := rcutil.Conf{Log: logw}
+	// the logger comes first so that the configuration loading below is logged too
+	conf := rcutil.Conf{}
+	var hosts []config.Host
+	switch c.LogVia {
+	case "json":
+		conf.Opts = append(conf.Opts, regclient.WithSlog(slog.New(slog.NewJSONHandler(logw, &slog.HandlerOptions{Level: types.LevelTrace}))))
+	case "logrus", "logrus-json":
+		lg := logrus.New()
+		lg.SetOutput(logw)
+		lg.SetLevel(logrus.TraceLevel)
+		if c.LogVia == "logrus-json" {
+			lg.SetFormatter(&logrus.JSONFormatter{})
+		}
+		conf.Opts = append(conf.Opts, regclient.WithLog(lg))
+	default:
+		conf.Opts = append(conf.Opts, regclient.WithSlog(slog.New(slog.NewTextHandler(logw, &slog.HandlerOptions{Level: types.LevelTrace}))))
+	}
 	auths := map[string]map[string]string{}
 	for i := range c.Hosts {
 		h := &c.Hosts[i]
@@ -113,13 +132,13 @@ func buildClient(c *Case, w *world, logw io.Writer) (*regclient.RegClient, func(
 					ch.User, ch.Pass, ch.Token = a.User, a.Pass, a.IDToken
 				}
 			}
-			conf.Hosts = append(conf.Hosts, ch)
+			hosts = append(hosts, ch)
 		case "docker":
 			if a != nil {
 				auths[c.dockerKey(i)] = dockerEntry(a, h.DockerForm)
 			}
 			if ch.RepoAuth || len(ch.Mirrors) > 0 || ch.Priority != 0 {
-				conf.Hosts = append(conf.Hosts, ch)
+				hosts = append(hosts, ch)
 			}
 		}
 	}
@@ -127,6 +146,9 @@ func buildClient(c *Case, w *world, logw io.Writer) (*regclient.RegClient, func(
 		if w.validHost(d.Target) {
 			auths[c.decoyKey(d)] = dockerEntry(c.decoyAccount(n), d.Form)
 		}
+	}
+	if len(hosts) > 0 {
+		conf.Opts = append(conf.Opts, regclient.WithConfigHost(hosts...))
 	}
 	cleanup := func() {}
 	if len(auths) > 0 {
